@@ -26,27 +26,30 @@ class TracingParameterNodeAtInstant:
         parameter_node_at_instant: ParameterNode,
         tracer: tracers.FullTracer,
     ) -> None:
-        self.parameter_node_at_instant = parameter_node_at_instant
-        self.tracer = tracer
+        # Private (name-mangled) attributes: a parameter may itself be called
+        # ``tracer`` or ``parameter_node_at_instant``, and a child read by
+        # attribute must reach ``__getattr__``.
+        self.__node = parameter_node_at_instant
+        self.__tracer = tracer
 
     def __getattr__(
         self,
         key: str,
     ) -> TracingParameterNodeAtInstant | Child:
-        child = getattr(self.parameter_node_at_instant, key)
+        child = getattr(self.__node, key)
         return self.get_traced_child(child, key)
 
     def __contains__(self, key) -> bool:
-        return key in self.parameter_node_at_instant
+        return key in self.__node
 
     def __iter__(self):
-        return iter(self.parameter_node_at_instant)
+        return iter(self.__node)
 
     def __getitem__(
         self,
         key: str | ArrayLike,
     ) -> TracingParameterNodeAtInstant | Child:
-        child = self.parameter_node_at_instant[key]
+        child = self.__node[key]
         return self.get_traced_child(child, key)
 
     def get_traced_child(
@@ -54,7 +57,7 @@ class TracingParameterNodeAtInstant:
         child: Child,
         key: str | ArrayLike,
     ) -> TracingParameterNodeAtInstant | Child:
-        period = self.parameter_node_at_instant._instant_str
+        period = self.__node._instant_str
 
         if isinstance(
             child,
@@ -63,21 +66,21 @@ class TracingParameterNodeAtInstant:
                 parameters.VectorialParameterNodeAtInstant,
             ),
         ):
-            return TracingParameterNodeAtInstant(child, self.tracer)
+            return TracingParameterNodeAtInstant(child, self.__tracer)
 
         if not isinstance(key, str) or isinstance(
-            self.parameter_node_at_instant,
+            self.__node,
             parameters.VectorialParameterNodeAtInstant,
         ):
             # In case of vectorization, we keep the parent node name as, for
             # instance, rate[status].zone1 is best described as the value of
             # "rate".
-            name = self.parameter_node_at_instant._name
+            name = self.__node._name
 
         else:
-            name = f"{self.parameter_node_at_instant._name}.{key}"
+            name = f"{self.__node._name}.{key}"
 
         if isinstance(child, (numpy.ndarray, *parameters.ALLOWED_PARAM_TYPES)):
-            self.tracer.record_parameter_access(name, period, child)
+            self.__tracer.record_parameter_access(name, period, child)
 
         return child
